@@ -369,6 +369,21 @@ pub fn run(run: &mut Run) -> Finish {
         }
         l.case(true, h64(&("longrun", k.min(70))));
     });
+    run.par_slice("E1 sizes: maps of n = 1..=130 tokens at distinct positions (7 per line), every token position and both neighbours queried, three constructions", 5, 130 * 3, |idx, l| {
+        let k = idx & ((1 << 40) - 1);
+        let n = (k / 3) as u32 + 1;
+        // inserted in a scrambled order
+        let mut positions: Vec<(u32, u32)> = (0..n).map(|i| (i / 7, 2 + (i % 7) * 3)).collect();
+        let len = positions.len();
+        for i in 0..len {
+            positions.swap(i, (i * 7 + 3) % len);
+        }
+        let c = E1Case { positions, how: (k % 3) as usize };
+        if let Some(v) = check_e1(&c) {
+            l.violation(idx, v);
+        }
+        l.case(true, h64(&("sizes", n, k % 3)));
+    });
     // E2
     let depth = tier.pick(4usize, 5);
     let seeds = seed_models();
